@@ -9,7 +9,7 @@
              | [4; cid; seq; payload] message | [5; cid] disconnect
      sout    = [0; hevent] call | [1; hevent] call raised | [2; addr; header; sealed; payload] sendto
              | [3; cid; id; ok] callback | [4; addr] datagram error | [5; cid] update error
-             | [6; cid; addr; token; key] hello accepted | [7; cid; token; key] challenge valid | [8; cause] died *)
+             | [6; cid; addr; token; key] hello accepted | [7; cid; token; key] challenge valid | [8; cause] died | [9; addr] send error *)
 From RecordUpdate Require Import RecordUpdate.
 From Model Require Import Base SeqNum Wire Conn Server.
 From Extract Require Import U_Conn.
@@ -64,6 +64,7 @@ Definition V_of_sout (o : sout) : V :=
   | SHello cid a t k => VL [VI 6; VI cid; V_of_addr a; VI t; VI k]
   | SChalOk cid t k => VL [VI 7; VI cid; VI t; V_of_oz k]
   | SDied c => VL [VI 8; VI c]
+  | SSendErr a => VL [VI 9; V_of_addr a]
   end.
 
 Definition V_of_client (full : bool) (cl : client) : V :=
